@@ -118,9 +118,18 @@ func (p *Plenc) CodecForTypeRegistry(registry plenccodec.CodecRegistry, typ refl
 		c = plenccodec.PointerWrapper{Underlying: subc}
 
 	case reflect.Struct:
-		c, err = plenccodec.BuildStructCodec(p, registry, typ, tag)
-		if err != nil {
-			return nil, err
+		if tag != "" {
+			// No codec is registered for this type with this tag. Tags do not
+			// change how a struct is encoded, so a codec registered for the
+			// type itself (e.g. for time.Time) is the one to use. Building a
+			// codec from the struct's fields would bypass it.
+			c = registry.Load(typ, "")
+		}
+		if c == nil {
+			c, err = plenccodec.BuildStructCodec(p, registry, typ, tag)
+			if err != nil {
+				return nil, err
+			}
 		}
 
 	case reflect.Slice:
